@@ -20,6 +20,7 @@
 (*   obs, format():  <<"ok", snapshot unchanged, digest of the output,      *)
 (*                     "~" | "out" | "raise", digest of draw()'s output     *)
 (*                     minus its trailer | exception class>>                *)
+(*   obs, format() not run (padding of millions of cells): <<"unobserved">> *)
 (* TLC evaluates Parse(style, s) and compares; the verdict names the first  *)
 (* differing field.                                                         *)
 (***************************************************************************)
@@ -72,7 +73,11 @@ RECURSIVE JoinSet(_)
 JoinSet(S) == IF S = {} THEN "" ELSE LET x == CHOOSE y \in S : TRUE IN x \o "|" \o JoinSet(S \ {x})
 
 JudgeObs(style, entry, obs, P, t, s) ==
-  IF obs[1] = "ok" THEN
+  IF obs[1] = "unobserved" THEN
+    \* the driver did not run format() (padding rectangle too large to build): no judgement
+    \* at that entry point; any other entry point must always be observed
+    (IF entry = 2 THEN Good ELSE [v |-> "unobserved-entry", exp |-> "observation", got |-> "none"])
+  ELSE IF obs[1] = "ok" THEN
     IF ~P.ok THEN
       [v   |-> IF OnlyBareDot(style, s) THEN "accepts-bare-dot:" \o BareDotClass(style, s)
                ELSE "accepts-non-sentence",
